@@ -16,9 +16,7 @@ def stripTrailingZeroes (b : Bytes) : Bytes :=
   (b.reverse.dropWhile (· == 0)).reverse
 
 /-- number of leading `0x00` bytes (the `for ; i < len && b[i] == 0; i++` loops) -/
-def countLeadingZeroes : Bytes → Nat
-  | [] => 0
-  | x :: xs => if x == 0 then countLeadingZeroes xs + 1 else 0
+def countLeadingZeroes (b : Bytes) : Nat := (b.takeWhile (· == 0)).length
 
 /-- `type writeBuffer struct { prev, curr []byte; p int }` -/
 structure WBuf where
